@@ -15,3 +15,54 @@ package parser
 //@ ensures forall k string :: has(m, k) ==> (exists i int :: 0 <= i && i < len(names) && names[i] == k)
 //@ modifies nothing
 //@ loop 0: order_assumed the collected keys are sorted before use: the result is the sorted key list, a function of the map as a set (sort.Strings assumed correct)
+
+// ---------------------------------------------------------------------------------------------
+// C11: token codes. A character literal is numbered by its character code (the first rune of the lexeme).
+
+//@ func (*parser).next
+//@ trusted token cursor (verified separately under C13); assumed lexer postcondition: a character token carries a non-empty lexeme
+//@ props C11
+//@ ensures p.current.Kind == Charater ==> len(p.current.Value) >= 1
+//@ modifies p.current, p.tokenArr, p.peekCount
+
+//@ func (*parser).backup
+//@ trusted token cursor
+//@ props C11
+//@ modifies p.peekCount
+
+//@ func (*parser).backup2
+//@ trusted token cursor
+//@ props C11
+//@ modifies p.tokenArr, p.peekCount
+
+//@ func (*parser).expect
+//@ trusted token cursor
+//@ props C11
+//@ ensures p.current.Kind == Charater ==> len(p.current.Value) >= 1
+//@ modifies p.current, p.tokenArr, p.peekCount, p.err
+
+//@ func (*parser).error
+//@ trusted records a diagnostic
+//@ props C11
+//@ modifies p.err
+
+//@ func genTempName
+//@ trusted name mangling for character literals
+//@ props C11
+//@ modifies nothing
+
+//@ func (*parser).parseTokendef
+//@ props C11
+//@ requires p.current.Kind == Charater ==> len(p.current.Value) >= 1
+//@ after_stmt [C11] "id := Idendity{" p.current.Kind == Charater ==> id.Value == int(rune_at(p.current.Value, 0))
+//@ loop 0: invariant p.current.Kind == Charater ==> len(p.current.Value) >= 1
+
+//@ func (*parser).parsePrecList
+//@ props C11
+//@ requires Tklist != nil && (p.current.Kind == Charater ==> len(p.current.Value) >= 1)
+//@ after_stmt [C11] "idvalue = " idvalue == int(rune_at(p.current.Value, 0))
+
+//@ func (*parser).parseRule
+//@ props C11
+//@ requires toklst != nil && (p.current.Kind == Charater ==> len(p.current.Value) >= 1)
+//@ after_stmt [C11] "id := Idendity{" id.Value == int(rune_at(p.current.Value, 0))
